@@ -149,17 +149,22 @@ Lemma walk_flags_ok :
   opath_nofollow (N.lor (N.lor (N.lor OPATH_WALK_FLAGS OPENAT_NOFOLLOW_FORCED) OPENAT_FORCED) O_LARGEFILE) = true.
 Proof. vm_compute. reflexivity. Qed.
 
+Lemma walk_flags_nodir :
+  has (N.lor (N.lor (N.lor OPATH_WALK_FLAGS OPENAT_NOFOLLOW_FORCED) OPENAT_FORCED) O_LARGEFILE) O_DIRECTORY = false.
+Proof. vm_compute. reflexivity. Qed.
+
 Lemma run_openat t fd d part :
-  tget t fd = Some d -> has_nul part = false -> has_slash part = false ->
+  tget t fd = Some d -> (d < PB s)%nat -> has_nul part = false -> has_slash part = false ->
   run t (os (w_openat fz fd part OPATH_WALK_FLAGS 0)) =
   match sem_open s d part with
   | inl o => Done ((fresh t, o) :: t) (Ok (fresh t))
   | inr e => Done t (Err (OsError e))
   end.
 Proof.
-  intros Hfd Hnul Hsl. unfold os, map_err, w_openat, w_openat_follow, rustix_path.
+  intros Hfd Hlt Hnul Hsl. unfold os, map_err, w_openat, w_openat_follow, rustix_path.
   rewrite (tget_valid _ _ _ Hfd), Hnul. cbn [negb bind Static.run].
-  unfold answer. cbn [sem]. rewrite Hfd, walk_flags_ok, Hsl, Hnul. cbn [negb orb].
+  unfold answer. cbn [sem]. rewrite Hfd, walk_flags_ok, walk_flags_nodir, Hsl, Hnul. cbn [negb orb andb].
+  destruct (Nat.leb_spec (PB s) d) as [Hle|_]; [lia|].
   destruct (sem_open s d part) as [o|e].
   - cbn [as_fd]. pose proof (fresh_ge3 t) as H3.
     destruct (Z.leb_spec 0 (fresh t)); [|lia]. reflexivity.
@@ -491,7 +496,7 @@ Proof.
   destruct Hclosed as (HPB & Hcl_l & Hcl_p).
   pose proof Hinv as [Hr Hc Hrc]. unfold mk in *.
   unfold walk_open. rewrite Hsl. cbn [w_cur w_root w_exp w_refs w_stack].
-  rewrite run_bind, (run_openat t cur o part Hc Hnul Hsl).
+  rewrite run_bind, (run_openat t cur o part Hc Holt Hnul Hsl).
   destruct (sem_open s o part) as [d|e] eqn:Eo.
   2:{ apply fails_res_err, (run_ret_partial t root cur expn refs None remaining (OsError e) Hrc). }
   set (nx := fresh t). set (t1 := (nx, d) :: t).
@@ -503,7 +508,7 @@ Proof.
   assert (Hinv1 : InvFd t1 root cur refs o) by (split; assumption).
   assert (Hfr1 : Frame s F t1) by (apply frame_new, Hfr).
   assert (Hdlt : (d < PB s)%nat).
-  { unfold sem_open in Eo. destruct (negb (FSModel.is_dir s o)); [discriminate|].
+  { unfold sem_open, open1 in Eo. destruct (negb (FSModel.is_dir s o)); [discriminate|].
     destruct (is_dot part); [inversion Eo; subst; exact Holt|].
     destruct (is_dotdot part); [inversion Eo; subst; apply Hcl_p, Holt|].
     destruct (FSModel.lookup s o part) as [c|] eqn:El; [|discriminate]. inversion Eo; subst. exact (Hcl_l o part d El). }
@@ -564,14 +569,14 @@ Lemma is_dotdot_eq p : is_dotdot p = true -> p = [DOT; DOT].
 Proof. unfold is_dotdot. apply beq_true_iff. Qed.
 
 Lemma sem_open_dot o : sem_open s o [DOT] = if FSModel.is_dir s o then inl o else inr ENOTDIR.
-Proof. unfold sem_open. destruct (FSModel.is_dir s o); reflexivity. Qed.
+Proof. unfold sem_open, open1. destruct (FSModel.is_dir s o); reflexivity. Qed.
 Lemma sem_open_dotdot o : sem_open s o [DOT; DOT] = if FSModel.is_dir s o then inl (FSModel.parent_of s o) else inr ENOTDIR.
-Proof. unfold sem_open. destruct (FSModel.is_dir s o); reflexivity. Qed.
+Proof. unfold sem_open, open1. destruct (FSModel.is_dir s o); reflexivity. Qed.
 Lemma sem_open_name o n : is_dot n = false -> is_dotdot n = false ->
   sem_open s o n = if FSModel.is_dir s o
                    then match FSModel.lookup s o n with Some c => inl c | None => inr (FSModel.name_err n) end
                    else inr ENOTDIR.
-Proof. intros H1 H2. unfold sem_open. rewrite H1, H2. destruct (FSModel.is_dir s o); reflexivity. Qed.
+Proof. intros H1 H2. unfold sem_open, open1. rewrite H1, H2. destruct (FSModel.is_dir s o); reflexivity. Qed.
 
 Lemma walk_body_static follow fe : follow_rel follow fe ->
   forall comps t root cur exp refs o, InvFd t root cur refs o -> Frame s F t -> (o < PB s)%nat ->
